@@ -306,6 +306,25 @@ struct ListH
                 std::vector<a_list *> rev(L.seq[rr].rbegin(), L.seq[rr].rend());
                 if (f1 != L.seq[rr] || f3 != L.seq[rr]) { ck.fail("foreach", "the forward loop macros do not visit the abstract sequence"); }
                 if (f2 != rev || f4 != rev) { ck.fail("foreach", "the backward loop macros do not visit the reversed abstract sequence"); }
+                // the remaining spellings: C89 plain loops and C99 safe loops
+                {
+                    std::vector<a_list *> g1, g2, g3, g4;
+                    A_LIST_FOREACH_NEXT(it, h) { g1.push_back(it); if (g1.size() > cap) break; }
+                    A_LIST_FOREACH_PREV(it, h) { g2.push_back(it); if (g2.size() > cap) break; }
+                    a_list_forsafe_next(jt, jn, h) { g3.push_back(jt); (void)jn; if (g3.size() > cap) break; }
+                    a_list_forsafe_prev(jt, jn, h) { g4.push_back(jt); (void)jn; if (g4.size() > cap) break; }
+                    if (g1 != L.seq[rr] || g3 != L.seq[rr] || g2 != rev || g4 != rev) { ck.fail("foreach", "an upper-case plain loop or a lower-case safe loop does not visit the abstract sequence"); }
+                    // a safe loop tolerates the loss of the current node: wreck its links inside the body (on a copy of the ring)
+                    std::vector<a_list> copy(total + 1);
+                    std::vector<a_list *> order;
+                    size_t k = L.seq[rr].size();
+                    a_list *ch = &copy[0];
+                    for (size_t i = 0; i <= k; ++i) { copy[i].next = &copy[(i + 1) % (k + 1)]; copy[i].prev = &copy[(i + k) % (k + 1)]; }
+                    A_LIST_FORSAFE_NEXT(it, at, ch) { order.push_back(it); it->next = it->prev = nullptr; if (order.size() > cap) break; }
+                    bool ok = order.size() == k;
+                    for (size_t i = 0; i < k && ok; ++i) { ok = order[i] == &copy[i + 1]; }
+                    if (!ok) { ck.fail("foreach", "the safe forward loop does not survive the removal of the current node"); }
+                }
             }
             return true;
         }
@@ -506,6 +525,12 @@ struct SlistH
                 a_slist_node *it, *at;
                 A_SLIST_FORSAFE(it, at, &L.list[ll]) { f2.push_back(it); if (f2.size() > SlistLive::MAXP) break; }
                 if (f1 != L.seq[ll] || f2 != L.seq[ll]) { ck.fail("foreach", "the loop macros do not visit the abstract sequence"); }
+                {
+                    std::vector<a_slist_node *> g1, g2;
+                    A_SLIST_FOREACH(it, &L.list[ll]) { g1.push_back(it); if (g1.size() > SlistLive::MAXP) break; }
+                    a_slist_forsafe(jt, jn, &L.list[ll]) { g2.push_back(jt); (void)jn; if (g2.size() > SlistLive::MAXP) break; }
+                    if (g1 != L.seq[ll] || g2 != L.seq[ll]) { ck.fail("foreach", "the upper-case plain loop or the lower-case safe loop does not visit the abstract sequence"); }
+                }
             }
             return true;
         }
